@@ -1150,6 +1150,9 @@ class ZoneFn:
                         res = self._opaque(l)                # usize::from(bool) is 0 or 1
                         self.sym_bound[res[0]] = 1
                         self.global_facts.append((None, res, (None, 1)))
+                    elif ty in ('usize', 'u64', 'u32') and cal in ('std::convert::From::from', 'std::convert::Into::into') and len(x['args']) == 1 \
+                            and (x['args'][0]['k'] == 'const' or self.body.local_ty(x['args'][0]['pl']['l']).lstrip('&').strip() in ('u8', 'u16', 'u32', 'usize', 'u64')):
+                        res = self.term_op(x['args'][0])            # a widening conversion (`usize::from(u16::MAX)`): the same number
                     elif ty in ('usize', 'u64', 'u32'):
                         ub = self._callee_retval(x)
                         if ub:
